@@ -249,11 +249,26 @@ def instrument_tickers(ctx):
                       error=f"{type(e).__name__}:{e}")
             raise
 
+    # the master scheduler's add_wakeup (public, overridable hook of BaseScheduler): which entry results
+    from tickit.core.management.schedulers import master as master_mod
+    M = master_mod.MasterScheduler
+    o_add = M.add_wakeup
+
+    def add_wakeup(self, component, when):
+        r = o_add(self, component, when)
+        try:
+            trace.log("m-add", comp=component, asked=int(when), entry=int(self.wakeups[component]))
+        except Exception:
+            trace.log("m-add", comp=component, asked=int(when), entry=None)
+        return r
+
     T.__init__, T.__call__, T.propagate = init, call, propagate
+    M.add_wakeup = add_wakeup
     try:
         yield
     finally:
         T.__init__, T.__call__, T.propagate = o_init, o_call, o_prop
+        M.add_wakeup = o_add
 
 
 # ---------------------------------------------------------------- running
